@@ -10,7 +10,11 @@
 EXTENDS Framing
 
 NL(p, l)           == [p |-> p, l |-> l]
-A(t, n, sg, fm, nl) == [t |-> t, n |-> n, segs |-> sg, fam |-> fm, nl |-> nl]
+(* x = 1: the Extended Length bit is set although the value has at most 255 octets.  RFC 4271 4.3 lets a
+   sender choose the two-octet length form for any value (the RFC 1771 restriction to values above 255
+   octets was dropped); the library keeps the bit of a parsed attribute and lets a caller set it. *)
+A(t, n, sg, fm, nl) == [t |-> t, n |-> n, segs |-> sg, fam |-> fm, nl |-> nl, x |-> 0]
+ExtForm(a)         == [a EXCEPT !.x = 1]
 Simple(t)          == A(t, 0, <<>>, "", <<>>)
 Counted(t, n)      == A(t, n, <<>>, "", <<>>)
 PathA(t, sg)       == A(t, 0, sg, "", <<>>)
@@ -119,9 +123,9 @@ ExpNhLens(f, nh) ==
 MinNh == 4
 MaxNh == 48
 AttrLenLo(a, opts) == LET v == ExpVLen(a, opts) + (IF a.t = "mpreach" THEN MinNh ELSE 0)
-                      IN v + (IF v > 255 THEN 4 ELSE 3)
+                      IN v + (IF v > 255 \/ a.x = 1 THEN 4 ELSE 3)
 AttrLenHi(a, opts) == LET v == ExpVLen(a, opts) + (IF a.t = "mpreach" THEN MaxNh ELSE 0)
-                      IN v + (IF v > 255 THEN 4 ELSE 3)
+                      IN v + (IF v > 255 \/ a.x = 1 THEN 4 ELSE 3)
 
 (* capability codes and value lengths (RFC 5492 4 and the capability RFCs) *)
 CapCode(c) ==
@@ -251,7 +255,7 @@ EncValue(a, opts) ==
 (* the library picks the extended-length bit at serialisation time from the value length *)
 EncAttr(a, opts) ==
   LET v   == EncValue(a, opts)
-      ext == Len(v) > 255
+      ext == Len(v) > 255 \/ a.x = 1       \* ... and keeps an Extended Length bit that is already set
   IN <<AttrFlags(a.t) + (IF ext THEN 16 ELSE 0), AttrCode(a.t)>>
      \o (IF ext THEN U16B(Len(v)) ELSE <<Len(v)>>) \o v
 
